@@ -2,6 +2,8 @@
 sequence.  Whole property not statically decidable (schedules); decided
 necessary conditions (DESIGN.md 4/C06)."""
 from .. import runtimerules as RR
+from ..locks import LockAnalysis
+from ..channelrules import rule_empty_drained, rule_cursor_pair, rule_cursor_copy
 
 EXPLANATION = (
     "Static path analysis of acquire.c. R-UNMAPPED-PRE: every channel_read_map "
@@ -15,7 +17,8 @@ EXPLANATION = (
     "finished acquisition is delivered later). PAIR: the flush unmaps what it "
     "maps. R-PASSTHROUGH: acquire_map_read / acquire_unmap_read / the stop flush "
     "all use the same (sink input channel, monitor reader) pair of the same "
-    "stream. Consecutive ids, freshness and independence of storage from the "
+    "stream. From C01, because the client consumes partially and the flush relies "
+    "on it: R-EMPTY-DRAINED, R-CURSOR-PAIR, R-CURSOR-COPY on the channel. Consecutive ids, freshness and independence of storage from the "
     "client's pace are schedule-dependent and not decided; whether the sticky "
     "Channel_Error status is reachable under a blocking writer is ring "
     "arithmetic and is reported as an observation only.")
@@ -30,6 +33,11 @@ def run(ctx, res):
     RR.rule_loop_until_empty(prog, res, "acquire_stop", "last")
     RR.rule_pairs(prog, res, ["acquire_stop"])
     RR.rule_passthrough(prog, res)
+    # channel clauses the monitor depends on (partial consumption, flush to empty)
+    la = LockAnalysis(prog)
+    rule_empty_drained(prog, res)
+    rule_cursor_pair(prog, res, la)
+    rule_cursor_copy(prog, res, la)
     # observation: a status that gates a public entry point and has no reset
     resets = 0
     for f in prog.all_funcs():
